@@ -84,10 +84,7 @@ func propC16(c *Ctx, r *Report) {
 				}
 			}
 		}
-		if len(bad) > 0 && !definite {
-			r.undecided("C16/era-table", name, c.pos(fn.Pos()), "the table could not be evaluated: "+strings.Join(bad, "; "))
-			return
-		}
+		_ = definite
 		r.check(len(bad) == 0, "C16/era-table", name, c.pos(fn.Pos()), fmt.Sprintf("%d height classes", len(e.reps)), strings.Join(bad, "; "))
 	}
 	evalEra("PEG request credited immediately only before the conversion limit", rb,
@@ -138,6 +135,26 @@ func propC16(c *Ctx, r *Report) {
 			}
 			return "dead"
 		})
+	// a height argument as the table sees it: its constant when the abstraction kept it, else what its origins say -
+	// the executing height (h), the executing height minus one, or a definite "other" (an unrelated source is a
+	// finding, not an unknown)
+	heightArg := func(h uint32, a AVal, v ssa.Value) string {
+		if _, ok := a.intVal(); ok {
+			return a.String()
+		}
+		if c.isExecHeight(v) {
+			return fmt.Sprintf("%d", h)
+		}
+		if bo, ok := unwrapConv(v).(*ssa.BinOp); ok && bo.Op == token.SUB && c.isExecHeight(bo.X) {
+			if k, ok := bo.Y.(*ssa.Const); ok && k.Value != nil && k.Int64() == 1 {
+				return fmt.Sprintf("%d", h-1)
+			}
+		}
+		if d := c.describeOrigin(v); d != "" && !strings.Contains(d, "parameter") {
+			return "other(" + d + ")"
+		}
+		return a.String()
+	}
 	evalEra("settlement call(s): per height with 5,000 PEG and bank height h-1 before V4, pooled with the pn_bank row of h from V4, none from V20", hold, holdSc,
 		func(h uint32, t *Trace) string {
 			switch {
@@ -162,9 +179,9 @@ func propC16(c *Ctx, r *Report) {
 				if strings.HasSuffix(typePath(unwrapConv(lc.Instr.Common().Args[6])), "BankEntry.BankAmount") {
 					bank = "BankAmount"
 				}
-				out = append(out, fmt.Sprintf("%s bank=%s bankHeight=%s", kind, bank, lc.Args[7]))
-				if hv, ok := lc.Args[5].intVal(); !ok || uint32(hv) != h {
-					out = append(out, "height="+lc.Args[5].String())
+				out = append(out, fmt.Sprintf("%s bank=%s bankHeight=%s", kind, bank, heightArg(h, lc.Args[7], lc.Instr.Common().Args[7])))
+				if hs := heightArg(h, lc.Args[5], lc.Instr.Common().Args[5]); hs != fmt.Sprintf("%d", h) {
+					out = append(out, "height="+hs)
 				}
 			}
 			if len(out) == 0 {
@@ -182,7 +199,7 @@ func propC16(c *Ctx, r *Report) {
 		func(h uint32, t *Trace) string {
 			for _, lc := range t.Calls {
 				if lc.Short == "SelectBankEntry" && lc.Depth == 0 {
-					return lc.Args[2].String()
+					return heightArg(h, lc.Args[2], lc.Instr.Common().Args[2])
 				}
 			}
 			return "dead"
@@ -190,6 +207,7 @@ func propC16(c *Ctx, r *Report) {
 	ruleNoCarriedReads(c, newSharedAnalysis(c), r, "C16/no-carried-state", reachOf(c, "node.Pegnetd.SyncBank", "node.Pegnetd.recordPegnetRequests", "node.Pegnetd.ApplyTransactionBatchesInHolding"), carriedAllowedAverages, "the PEG bank")
 	ruleRejectedNotCollected(c, r, e, "C16/rejected-not-collected")
 	ruleRefundFormula(c, r, "C16/refund-formula")
+	rulePooledListAccumulates(c, r, e, "C16/pooled-list")
 	r.rule("C16/loopvar-alias", 1, "a recorded PEG request does not alias the loop variable it was read from")
 	ruleLoopVarAlias(c, r, "C16/loopvar-alias", reachOf(c, "node.Pegnetd.recordPegnetRequests", "node.Pegnetd.ApplyTransactionBatchesInHolding"))
 	sbk := c.fn("node.Pegnetd.SyncBank")
@@ -352,6 +370,21 @@ func propC16(c *Ctx, r *Report) {
 		r.Scen++
 		prop := t.Live("PayoutBig")
 		r.check(prop == (rel >= 0), "C16/payouts-table", fmt.Sprintf("total requested %s bank", map[int]string{-1: "<", 0: "=", 1: ">"}[rel]), c.pos(pf.Pos()), map[bool]string{true: "proportional shares", false: "requests paid in full"}[rel >= 0], fmt.Sprintf("proportional path %s", liveStr(prop)))
+	}
+	// every request of the set gets an entry (possibly 0): the settlement walks this map to pay AND to refund
+	for _, ci := range c.findCallsFam(pf, "conversions.PayoutBig") {
+		var upd *ssa.MapUpdate
+		allInstrs(ci.Parent(), func(ins ssa.Instruction) {
+			if mu, ok := ins.(*ssa.MapUpdate); ok && unwrapConv(mu.Value) == ci.(ssa.Value) {
+				upd = mu
+			}
+		})
+		if upd == nil {
+			r.viol("C16/payouts-table", "proportional share stored per request", c.ipos(ci), "the result of PayoutBig is not stored in the payout map")
+			continue
+		}
+		okk, why := everyIterationReaches(ci.Parent(), upd)
+		r.check(okk, "C16/payouts-table", "every request gets a payout entry", c.ipos(upd), "", why+": a request without an entry (e.g. a share that rounds to 0) is skipped by recordPegnetRequests, which also computes the refund - its debited input is never given back")
 	}
 	pb := c.fn("conversions.PayoutBig")
 	{
@@ -537,4 +570,66 @@ func ruleRefundFormula(c *Ctx, r *Report, rule string) {
 		}
 	})
 	r.check(len(bad) == 0 && nret > 0, rule, "conversions.Refund", c.pos(f.Pos()), fmt.Sprintf("%d return(s)", nret), strings.Join(bad, "; "))
+}
+
+// rulePooledListAccumulates: from V4OPRUpdate the PEG requests of every height of the holding window are settled
+// together after the loop; the list handed to that settlement therefore accumulates over the whole loop - in the CFG
+// specialised to that era no (re)creation of an empty list inside the height loop can reach it.
+func rulePooledListAccumulates(c *Ctx, r *Report, e *eraCtx, rule string) {
+	r.rule(rule, 1, "the pooled settlement receives the requests of every height of the window")
+	hold := c.fn("node.Pegnetd.ApplyTransactionBatchesInHolding")
+	v4, v20 := e.a.get("V4OPRUpdate"), e.a.get("V20HeightActivation")
+	var bad []string
+	n := 0
+	for _, h := range e.reps {
+		if h < v4 || h >= v20 {
+			continue
+		}
+		sc := &Scenario{Params: map[string]AVal{"type:uint32": hconst(h)},
+			Calls: map[string]AVal{"HasPEGRequest": cBool(true), "isDone": cBool(false), "applyTransactionBatch": nilVal, "IsReplayTransaction": {K: ATuple, Tup: []AVal{cBool(false), nilVal}},
+				"SelectBankEntry": {K: ATuple, Tup: []AVal{top, nilVal}}},
+			MaxDepth: 1, AllErrorsNil: true, NoInline: map[string]bool{"recordPegnetRequests": true, "GetPegNetRateAverages": true}}
+		s := newSCCP(c, sc)
+		st := s.run(hold, nil, 0)
+		r.Scen++
+		if st == nil {
+			continue
+		}
+		for _, ci := range c.findCallsFam(hold, "node.Pegnetd.recordPegnetRequests") {
+			fs := findStateOf(st, ci.Parent(), 0)
+			if fs == nil || !fs.execB[ci.Block()] {
+				continue
+			}
+			// the settlement after the loop (in hold itself: not inside a loop; in a closure called after it: as lifted)
+			site := c.liftSite(ci, hold)
+			if site == nil || innermostLoop(hold, site.Block()) != nil {
+				continue
+			}
+			n++
+			backSlice(ci.Common().Args[2], func(v ssa.Value) bool {
+				ins, ok := v.(ssa.Instruction)
+				if !ok || ins.Parent() != hold || ins.Block() == nil {
+					return true
+				}
+				empty := false
+				switch x := v.(type) {
+				case *ssa.MakeSlice:
+					empty = true
+				case *ssa.Slice:
+					if a, ok := x.X.(*ssa.Alloc); ok {
+						if arr, ok := a.Type().Underlying().(*types.Pointer); ok {
+							if at, ok := arr.Elem().Underlying().(*types.Array); ok && at.Len() == 0 {
+								empty = true
+							}
+						}
+					}
+				}
+				if empty && innermostLoop(hold, ins.Block()) != nil && st.execB[ins.Block()] && len(bad) < 3 {
+					bad = append(bad, fmt.Sprintf("h=%d: the list settled at %s can be the empty list created inside the height loop at %s", h, c.ipos(ci), c.ipos(ins)))
+				}
+				return true
+			})
+		}
+	}
+	r.check(len(bad) == 0 && n > 0, rule, "ApplyTransactionBatchesInHolding, V4OPRUpdate <= h < V20HeightActivation", c.pos(hold.Pos()), fmt.Sprintf("%d height classes: the list is created before the loop only", n), strings.Join(bad, "; ")+": requests collected at earlier heights of the window are dropped - their inputs were debited, they get neither PEG nor refund")
 }
